@@ -6,6 +6,7 @@ package universe
 import (
 	"fmt"
 	"reflect"
+	"sort"
 	"strings"
 	"time"
 	"unicode/utf8"
@@ -389,6 +390,12 @@ func Shapes(k Kind) []Shape {
 			{Name: "nlv-4097", Class: "lang1-long", Build: func(*Gen) reflect.Value { return val(nlv("-", LongText(4097))) }},
 			{Name: "nlv2-long", Class: "lang2+-long", Build: func(*Gen) reflect.Value { return val(nlv("en", LongText(1025), "fr", LongText(513))) }},
 			{Name: "nlv3", Class: "lang2+", Build: func(*Gen) reflect.Value { return val(nlv("en-US", "Hello", "fr", "Bonjour", "zh-Hant", "你好")) }},
+			// BCP 47 tags with several subtags, singletons and private use
+			{Name: "nlv-subtags", Class: "lang2+-subtags", Build: func(*Gen) reflect.Value {
+				return val(nlv("zh-Hant-TW", "你好", "en-x-pirate", "Ahoy", "de-DE-u-co-phonebk", "Hallo", "x-klingon", "nuqneH", "es-419", "Hola"))
+			}},
+			{Name: "nlv-untagged+tagged", Class: "lang2+-untagged", Build: func(*Gen) reflect.Value { return val(nlv("-", "plain", "fr", "bonjour")) }},
+			{Name: "nlv-tagged+untagged", Class: "lang2+-untagged", Build: func(*Gen) reflect.Value { return val(nlv("en", "hello", "-", "plain")) }},
 		}
 	case KTime:
 		return []Shape{
@@ -849,5 +856,137 @@ func Scale(fn func(Recipe)) {
 				return reflect.ValueOf(s).Convert(f.Type)
 			}}}}})
 		}
+	}
+}
+
+// IRIForms are legal presentations of an absolute IRI that a codec must carry unchanged and that equality must tell apart or
+// identify exactly as documented: IPv6 literal hosts (with and without port), an explicit default port, userinfo, non-ASCII
+// path and host, an upper-case scheme, an empty fragment and an empty query, percent-encoded octets in both letter cases.
+var IRIForms = []struct {
+	Name, S string
+	NotURL  bool // absolute IRI, but not a URL with an authority: outside the stated domain of the codecs
+}{
+	{"ipv6", "https://[2001:db8::1]/users/1", false},
+	{"ipv6-port", "https://[2001:db8::1]:8443/users/1", false},
+	{"ipv6-short", "http://[::1]/a", false},
+	{"default-port", "https://example.com:443/users/1", false},
+	{"default-port-http", "http://example.com:80/users/1", false},
+	{"userinfo", "https://jdoe@example.com/~jdoe", false},
+	{"non-ascii-path", "https://example.com/users/josé", false},
+	{"non-ascii-host", "https://bücher.example/users/1", false},
+	{"upper-scheme", "HTTPS://example.com/users/1", false},
+	{"empty-fragment", "https://example.com/users/1#", false},
+	{"empty-query", "https://example.com/users/1?", false},
+	{"pct-upper", "https://example.com/a%2Fb%C3%A9", false},
+	{"pct-lower", "https://example.com/a%2fb%c3%a9", false},
+	{"query-slash", "https://example.com/search?dir=/inbox/", false},
+	{"urn", "urn:uuid:6e8bc430-9c3a-11d9-9669-0800200c9a66", true},
+	{"as-public", "as:Public", true},
+}
+
+// IRIPresentations yields, for every struct and every IRI-bearing position (IRI-typed fields, single-item and list properties),
+// a value holding each of the IRIForms there (alone, and in lists next to an ordinary IRI).
+func IRIPresentations(fn func(Recipe)) {
+	for i := range Structs {
+		s := &Structs[i]
+		for _, f := range s.Fields {
+			if f.Kind != KIRI && f.Kind != KItem && f.Kind != KItems {
+				continue
+			}
+			if f.Term == "type" {
+				continue
+			}
+			for _, form := range IRIForms {
+				if form.NotURL {
+					continue
+				}
+				f, form := f, form
+				fn(Recipe{Struct: s, TypeName: s.SpecificName(), NoID: f.Term == "id", Sets: []Set{{f, Shape{Name: "iri:" + form.Name, Class: "iri-" + form.Name, Build: func(g *Gen) reflect.Value {
+					switch f.Kind {
+					case KIRI:
+						return val(ap.IRI(form.S))
+					case KItem:
+						v := reflect.New(tItem).Elem()
+						v.Set(reflect.ValueOf(ap.IRI(form.S)))
+						return v
+					}
+					return val(ap.ItemCollection{g.IRI(), ap.IRI(form.S)})
+				}}}}})
+			}
+		}
+	}
+}
+
+// GenericNames yields level-1 values typed with the GENERIC name of their struct ("Actor", "Activity", "Object",
+// "IntransitiveActivity", "Collection" ...) instead of a specific one: a dispatch that enumerates the specific names only
+// loses the struct's own properties for the generic name.
+func GenericNames(s *Struct, codec Codec, fn func(Recipe)) {
+	if s.Name == s.SpecificName() {
+		return
+	}
+	Level1(s, codec, true, func(r Recipe) {
+		r.TypeName = s.Name
+		fn(r)
+	})
+	Saturated(s, codec, func(r Recipe) {
+		r.TypeName = s.Name
+		fn(r)
+	})
+}
+
+// ListForms yields values whose item properties hold lists in their less common forms: a pointer to an ItemCollection, a
+// one-member list (of an IRI / of an embedded object), IRIs, and - for list properties - slices that are windows into ONE shared
+// backing array (to, cc, bto, bcc, tag cut from the same array, private ones first).
+func ListForms(s *Struct, fn func(Recipe)) {
+	for _, f := range s.ItemFields() {
+		f := f
+		if f.Kind == KItem {
+			mk := func(name string, build func(g *Gen) ap.Item) {
+				fn(Recipe{Struct: s, TypeName: s.SpecificName(), Sets: []Set{{f, Shape{Name: name, Class: "list-form", Build: func(g *Gen) reflect.Value {
+					v := reflect.New(tItem).Elem()
+					v.Set(reflect.ValueOf(build(g)))
+					return v
+				}}}}})
+			}
+			mk("*list[obj,iri]", func(g *Gen) ap.Item {
+				c := ap.ItemCollection{Embedded(ByName("Object"), g, true, true).Interface().(ap.Item), g.IRI()}
+				return &c
+			})
+			mk("list[1 iri]", func(g *Gen) ap.Item { return ap.ItemCollection{g.IRI()} })
+			mk("list[1 obj]", func(g *Gen) ap.Item {
+				return ap.ItemCollection{Embedded(ByName("Object"), g, true, true).Interface().(ap.Item)}
+			})
+			mk("*iris[2]", func(g *Gen) ap.Item { c := ap.IRIs{g.IRI(), g.IRI()}; return &c })
+		}
+	}
+	var lists []Field
+	for _, f := range s.ItemFields() {
+		if f.Kind == KItems {
+			lists = append(lists, f)
+		}
+	}
+	if len(lists) >= 2 {
+		// private lists first, so that whatever follows them in the array belongs to another property
+		sort.SliceStable(lists, func(i, j int) bool {
+			pi, pj := lists[i].Term == "bto" || lists[i].Term == "bcc", lists[j].Term == "bto" || lists[j].Term == "bcc"
+			return pi && !pj
+		})
+		var sets []Set
+		var backing ap.ItemCollection
+		built := false
+		for k, f := range lists {
+			k := k
+			sets = append(sets, Set{f, Shape{Name: "window", Class: "shared-backing-array", Build: func(g *Gen) reflect.Value {
+				if !built || k == 0 {
+					backing = make(ap.ItemCollection, 0, 2*len(lists))
+					for i := 0; i < 2*len(lists); i++ {
+						backing = append(backing, g.IRI())
+					}
+					built = true
+				}
+				return val(backing[2*k : 2*k+2])
+			}}})
+		}
+		fn(Recipe{Struct: s, TypeName: s.SpecificName(), Sets: sets})
 	}
 }
